@@ -48,9 +48,9 @@ fn options_push_back(options: &mut BTreeMap<u16, VecDeque<Vec<u8>>>, n: u16, v: 
             parse_msg(buf@) is Some && !lenient(buf@) ==> r is Ok,
             // and returns exactly the fields the grammar defines
             r is Ok ==> parse_msg(buf@) is Some && pkt_matches(r->Ok_0, parse_msg(buf@)->0),
-            // C01 needs its own messages parsed back whatever their version / code: today's parser
-            // accepts everything the grammar accepts          @props C01
-            parse_msg(buf@) is Some ==> r is Ok, // @props C01
+            // C01 needs the encoder's own messages parsed back whatever their version / code (a 0.00 message with a token or
+            // options included); the encoder never ends a message with a bare payload marker, so that shape stays optional
+            parse_msg(buf@) is Some && !lone_marker(buf@) ==> r is Ok, // @props C01
             dec_post(buf@, r), // @props C01''', props=PROPS)
     u.after(FROM_BYTES, r'let mut idx = options_start;',
             '                let ghost mut acc: Seq<(u16, Seq<u8>)> = Seq::empty();')
@@ -67,6 +67,9 @@ fn options_push_back(options: &mut BTreeMap<u16, VecDeque<Vec<u8>>>, n: u16, v: 
                             None => parse_opts(buf@, options_start as int, 0) is None,
                             Some((rest, pl)) => parse_opts(buf@, options_start as int, 0) == Some((acc + rest, pl)),
                         },
+                        // the part from the payload marker on is the same seen from here (lets a stricter parser argue that a
+                        // datagram it refuses is one of the shapes C03 leaves open)
+                        tail_of(buf@, options_start as int) == tail_of(buf@, idx as int),
                     ensures idx >= buf.len() || buf@[idx as int] == 255u8,
                     decreases buf.len() - idx,''')
     u.before(FROM_BYTES, r'let byte = buf\[idx\];',
